@@ -852,6 +852,8 @@ def run(ctx):
             for s, dgs in enumerate(dg):
                 if first_finding is not None and s >= first_finding:
                     break
+                if s < len(i) and i[s].startswith("err"):
+                    break      # the judged run ends at the first Err (as in `oracle`)
                 if crossed is not None and s >= crossed:
                     # the product is mis-scaled from here on: confirm it is visible, report once
                     if s == crossed and dgs and dgs != "-":
